@@ -130,6 +130,18 @@ def replay_one(ck, path):
 def main():
     ck = Check("C05")
     tier = ck.tier
+    for fn in ([] if os.environ.get("VERIF_REPLAY") else os.listdir(ck.wd)):   # nothing is reused from an earlier run
+        if fn.startswith(("violation-", "trace-")):
+            os.remove(os.path.join(ck.wd, fn))
+    import time as _time
+    _t = [_time.time()]
+    phases = {}
+
+    def lap(name):
+        phases[name] = round(_time.time() - _t[0], 1)
+        _t[0] = _time.time()
+        ck.note("phase_wall_s", phases)
+
     ck.rule = (
         "TLC walks every unordered genotype of every instance (ploidy, alleles, F in {0,1/4,1/2,3/4}, frequency "
         "vector with denominator <= 4 incl. zeros; flat priors over U haplotypes) accumulating exact integer "
@@ -162,6 +174,7 @@ def main():
     if len(states) != r.distinct:
         ck.machinery_failure("dumped %d states but TLC found %d" % (len(states), r.distinct))
 
+    lap("tlc_model_checking_mutants_coverage")
     # ---- spec -> code: every state, both modes ------------------------------
     states.sort(key=lambda s: (inst_key(s), s["idx"]))
     chunks = [states[i: i + 600] for i in range(0, len(states), 600)]
@@ -196,6 +209,7 @@ def main():
     ck.note("py_mode_lgamma_pole_skipped", stats["py_lgamma_pole"])
     ck.note("undefined_conditionals_not_compared", stats["undefined_conditionals"])
 
+    lap("replay_jit_py")
     # ---- the implementation's own sum over each enumerated genotype space ----
     n_inst = 0
     for k, e in sums.items():
@@ -296,6 +310,7 @@ def main():
             ck.machinery_failure("%s: expected rejections %s, got %s" % (name, want, got))
     ck.note("corrupted_traces_rejected", len(wanted))
 
+    lap("trace_validation")
     # ---- arbitrary float parameters: the TLC-checked theorems as numeric relations ----
     nf = 40 if tier == "quick" else 400
     res = pool.map_tasks("impl.c05", [{"op": "float_instances", "n": nf // 4, "seed": ck.seed * 77 + b} for b in range(4)],
@@ -338,6 +353,7 @@ def main():
                                      key={"site": "calling.prior.log_genotype_allele_prior", "variant": "float-parameters",
                                           "F0": inst["F"] == 0})
     ck.note("float_parameter_instances", nfl)
+    lap("float_relations")
 
     ck.exhaustive = True
     ck.assumptions = [
